@@ -122,11 +122,17 @@ def check(case) -> Result:
         @func_adl_callback(cb_empty)
         def pt(self, scale: float = 1.0) -> float: ...
 
-    @func_adl_callback(cb_cls)
     class Evt:
         def jets(self, name: str = "x") -> Iterable[Jet]: ...
 
         def met(self) -> float: ...
+
+    # in two of three cases the event class has a class-level callback too (it fires first and replaces the working stream of the
+    # type follower; without it the callbacks inside nested lambdas are the only ones that touch it)
+    if len(repr(case)) % 3 != 0:
+        Evt = func_adl_callback(cb_cls)(Evt)
+    else:
+        r.labels.append("no-class-callback-on-the-event-class")
 
     class DS(EventDataset):
         def __init__(self, typed):
